@@ -98,7 +98,9 @@ pub fn contract(p: &mut Parser, r: &RuleInfo, first: impl Fn(K) -> bool, cont: i
     l1::log_event(l1::EV_FAIL, r.id, la as u8);
     let eat_one: bool = kani::any();
     let may_eat = la != K::Eof && (r.progress || !is_recover(la));
-    if (r.progress && la != K::Eof) || (eat_one && may_eat) {
+    // a rule entered with a look-ahead of its FIRST set consumes at least that token (each
+    // unit proves this about its own rule)
+    if ((r.progress || first(la)) && la != K::Eof) || (eat_one && may_eat) {
         unsafe {
             l1::G_IN_CONTRACT = true;
         }
@@ -118,7 +120,7 @@ pub fn marker(ok: bool) -> CompletedMarker {
 
 /// judgement after the real rule function returned (recogniser mode): `accepted` = the
 /// documented right-hand side accepts the sequence of tokens / callee placeholders consumed
-pub fn unit_judge(p: &mut Parser, accepted: bool, viable: bool, progress: bool, entry_after_error: bool, la0: K, kf_region: u8) {
+pub fn unit_judge(p: &mut Parser, accepted: bool, viable: bool, progress: bool, la0_in_first: bool, entry_after_error: bool, la0: K, kf_region: u8) {
     let errs = unsafe { l1::G_ERRS };
     let nev = unsafe { l1::G_NEV };
     unsafe {
@@ -143,8 +145,8 @@ pub fn unit_judge(p: &mut Parser, accepted: bool, viable: bool, progress: bool, 
             }
         }
     }
-    if progress && la0 != K::Eof {
-        assert!(l1::l2_consumed(p) >= 1, "C02: the rule consumes at least one token");
+    if (progress || la0_in_first) && la0 != K::Eof {
+        assert!(l1::l2_consumed(p) >= 1, "C02: the rule consumes at least one token when entered with a look-ahead of its FIRST set");
     }
     kani::cover!(errs == 0 && accepted && nev >= 2, "I: an accepted sentence with >= 2 constituents");
     kani::cover!(errs == 0 && accepted, "W: an accepted sentence");
